@@ -44,3 +44,33 @@ Print Assumptions C02_wrap64_range.
 Theorem C02_wrap64_congruent : forall z, (wrap64 z - z) mod 18446744073709551616 = 0.
 Proof. exact wrap64_congr. Qed.
 Print Assumptions C02_wrap64_congruent.
+
+(* ---- the NanoCore part: formal/{Syntax,Semantics,EvalFn}.v of the repository, copied on every run ---- *)
+From NV Require Import Back.NanoCoreBridge Back.NanoCoreBridgeProofs.
+
+(* on the common domain (every intermediate result an int64, division of a non-negative by a positive number) the
+   language definition and the repository's proved evaluator assign the same value *)
+Theorem C02_nanocore_bridge : forall fns e en v v' ne,
+  all_scalar en -> exact_eval en e = Some v -> embed_val v = Some v' -> embed_expr e = Some ne ->
+  forall fuel out, (esize e < fuel)%nat ->
+    eval_expr fns fuel [] en e out = Ok v out /\ nanocore_eval fuel en e = Some v'.
+Proof. exact bridge. Qed.
+Print Assumptions C02_nanocore_bridge.
+
+(* outside that domain they differ: the full statement "a verified function computes the value the proved semantics
+   assigns" is refuted, with witnesses that are replayed on the real engines (known findings lang:nanocore-...) *)
+Theorem C02_nanocore_division_refuted :
+  exists e, eval_expr [] 10 [] [] e [] = Ok (VInt (-3)) [] /\ nanocore_eval_v 10 [] e = Some (VInt (-4)).
+Proof. exists (EBin BDiv (ENum (-7)) (ENum 2)). split; vm_compute; reflexivity. Qed.
+Print Assumptions C02_nanocore_division_refuted.
+
+Theorem C02_nanocore_overflow_refuted :
+  exists e, eval_expr [] 10 [] [] e [] = Ok (VInt (-9223372036854775808)) [] /\
+            nanocore_eval_v 10 [] e = Some (VInt 9223372036854775808).
+Proof. exists (EBin BAdd (ENum 9223372036854775807) (ENum 1)). split; vm_compute; reflexivity. Qed.
+Print Assumptions C02_nanocore_overflow_refuted.
+
+Example C02_nanocore_bridge_nonvacuous :
+  exact_eval [(1%N, (false, VInt 7)); (2%N, (false, VBool true))]
+             (ECond (EVar 2%N) (EBin BDiv (EBin BMul (EVar 1%N) (ENum 6)) (ENum 4)) (ENum 0)) = Some (VInt 10).
+Proof. vm_compute. reflexivity. Qed.
